@@ -191,7 +191,9 @@ class C04(HistoryCampaign):
 
     def execute(self, sc):
         disk = SimDisk() if sc.get("files") else None
-        w = make_world(sc, [C04Monitor()], self.world_opts, disk)
+        w, failed = self.build_world(sc, [C04Monitor()], disk)
+        if failed is not None:
+            return failed
         if disk is not None and w.mc.default_logger is not None:
             # full-precision column through the public add_field API
             w.mc.default_logger.add_field("Efull", w.atoms.get_potential_energy, "{:.17g}")
